@@ -14,7 +14,7 @@ import common
 from props.c12 import spec_answer
 from props.c13 import PREFIX, cdiv
 
-RATES = [(10 ** 8, 7), (10 ** 6, 3), (200, 3), (25 * 10 ** 6, 3), (1, 1), (100, 1), (10 ** 9, 7)]
+RATES = [(10 ** 8, 7), (10 ** 6, 3), (200, 3), (25 * 10 ** 6, 3), (1, 1), (100, 1), (10 ** 9, 7), (10 ** 11, 1001)]
 FCS = [1, 3, 60, 3600]
 SCS = [3600, 86400]
 
@@ -39,15 +39,17 @@ def tree_hash(top):
 
 
 class Scenario:
-    def __init__(self, res, n, d, fc, sc):
+    def __init__(self, res, n, d, fc, sc, epoch=False):
         import digital_rf
         self.drf = digital_rf
         self.res, self.n, self.d, self.fc, self.sc = res, n, d, fc, sc
+        self.epoch = epoch
         self.top = common.scratch_dir()
         self.ch = os.path.join(self.top, "ch0")
         self.md = os.path.join(self.ch, "metadata")
         os.makedirs(self.md)
-        self.t0 = 1500000000 + res.rng.randrange(0, 86400)
+        # epoch scenarios start at index 0, so that indices of different decimal lengths share a file
+        self.t0 = 0 if epoch else 1500000000 + res.rng.randrange(0, 86400)
         self.k = cdiv(self.t0 * n, d)               # metadata cursor = RF start sample
         self.rf_next = self.k
         self.rfw = digital_rf.DigitalRFWriter(self.ch, np.int16, 3600, 1000, self.k, n, d, uuid_str="c20",
@@ -56,13 +58,39 @@ class Scenario:
         self.mdw = digital_rf.DigitalMetadataWriter(self.md, sc, fc, n, d, PREFIX)
         self.readers = []
         self.spec = {}
+        self.has_opt = {}
         self.tag = 1
         self.mops = []        # model encoding of the metadata-related ops
         self.iobs = []        # implementation observations, same encoding as the model's output
         self.log = []         # human-readable op log for replays
 
+    def age_files(self):
+        """make every metadata file older than the file cadence and keep it writable: the reader's
+        deleting branch (_add_metadata, except IOError) is then guarded only by 'the file cannot be
+        opened', which is the valid-tree hypothesis of C20_reads_do_not_mutate"""
+        import time
+        old = time.time() - 2 * self.fc - 100
+        for root, _d, files in os.walk(self.md):
+            for f in files:
+                os.utime(os.path.join(root, f), (old, old))
+
+    def check_valid_tree(self):
+        """the hypothesis of the theorem, checked on the real tree: every metadata file opens"""
+        import h5py
+        for root, _d, files in os.walk(self.md):
+            for f in files:
+                p = os.path.join(root, f)
+                try:
+                    with h5py.File(p, "r"):
+                        pass
+                    self.res.count("valid-tree:file-opens-readable-writable-old",
+                                   int(os.access(p, os.R_OK) and os.access(p, os.W_OK)))
+                except IOError as e:
+                    self.res.disagree("tree is not valid: a metadata file cannot be opened", p, "openable", repr(e))
+
     # ---- every read-only call goes through here
     def ro(self, what, fn):
+        self.age_files()
         h0 = tree_hash(self.top)
         try:
             out = fn()
@@ -91,7 +119,10 @@ class Scenario:
         for _ in range(m):
             T = ((k * d // n) // fc + 1) * fc           # next file boundary
             b = cdiv(T * n, d)
-            k = rng.choice([k + 1, k + rng.randrange(1, 20), max(k + 1, b - 1), max(k + 1, b), max(k + 1, b + 1)])
+            if self.epoch:                              # stay inside the file: 8, 9, 10, ... 99, 100, ...
+                k = rng.choice([k + 1, k + 1, k + rng.randrange(1, 6), k + rng.randrange(1, 40)])
+            else:
+                k = rng.choice([k + 1, k + rng.randrange(1, 20), max(k + 1, b - 1), max(k + 1, b), max(k + 1, b + 1)])
             ks.append(k)
         dup = bool(self.spec) and rng.random() < 0.12
         if dup:
@@ -99,9 +130,16 @@ class Scenario:
         tags = list(range(self.tag, self.tag + len(ks)))
         self.tag += len(ks)
         form = rng.choice(["dict", "list"])
+        # the field "opt" is written only by some calls, never by the first (heterogeneous samples)
+        opt = bool(self.spec) and rng.random() < 0.5
         data = {"tag": tags, "x": [float(t) / 2 for t in tags]} if form == "dict" else \
             [{"tag": t, "x": float(t) / 2} for t in tags]
-        self.log.append(["mdwrite", ks, tags, form])
+        if opt and form == "dict":
+            data["opt"] = [t * 10 for t in tags]
+        elif opt:
+            for dd in data:
+                dd["opt"] = dd["tag"] * 10
+        self.log.append(["mdwrite", ks, tags, form, opt])
         try:
             self.mdw.write(ks, data)
             ok = 1
@@ -113,6 +151,7 @@ class Scenario:
                 exp_ok = 0
                 break
             self.spec[kk] = t
+            self.has_opt[kk] = opt
         if not dup:
             self.k = ks[-1]
         self.mops += [0, len(ks)] + [x for kk, t in zip(ks, tags) for x in (kk, t)]
@@ -195,6 +234,50 @@ class Scenario:
             self.res.violation(sig, "a reader (created %s) does not report the writes that have returned" %
                                ("earlier" if old else "just now"), self.replay_input("query"), exp, got)
 
+    def column_query(self):
+        """reads that name the field 'opt', which some in-range samples lack: the call must either raise
+        KeyError or return every sample of the range -- and, like every read, leave the tree alone"""
+        rng = self.res.rng
+        if not self.readers or not self.spec:
+            return
+        r = rng.randrange(len(self.readers))
+        rd = self.readers[r]
+        keys = sorted(self.spec)
+        a = rng.choice(keys) - rng.choice([0, 1])
+        b = rng.choice([k for k in keys if k >= a]) + rng.choice([0, 1])
+        sel = [k for k in keys if a <= k <= b]
+        which = rng.choice(["read-list", "read-str", "flatdict", "latest"])
+        self.log.append(["colquery", r, which, a, b])
+        if which == "read-list":
+            out, err = self.ro("read(a,b,columns=['tag','opt'])", lambda: rd.read(a, b, columns=["tag", "opt"]))
+            got = None if err is not None else [(int(k), int(v["tag"]), int(v["opt"])) for k, v in out.items()]
+        elif which == "read-str":
+            out, err = self.ro("read(a,b,columns='opt')", lambda: rd.read(a, b, columns="opt"))
+            got = None if err is not None else [(int(k), self.spec[int(k)], int(v)) for k, v in out.items()]
+        elif which == "flatdict":
+            out, err = self.ro("read_flatdict(a,b,columns=['tag','opt'])",
+                               lambda: rd.read_flatdict(a, b, columns=["tag", "opt"]))
+            got = None if err is not None else (
+                [(int(k), int(t), int(o)) for k, t, o in zip(out["index"], out["tag"], out["opt"])] if len(out["index"]) else [])
+        else:
+            sel = keys[-1:]
+            out, err = self.ro("read_latest(columns='opt')", lambda: rd.read_latest(columns="opt"))
+            got = None if err is not None else [(int(k), self.spec[int(k)], int(v)) for k, v in out.items()]
+        loaded = sel
+        if which == "latest":   # the forward-fill pass converts every sample of the last file before picking the last
+            from props.c13 import spec_path
+            lastp = spec_path(self.n, self.d, self.fc, self.sc, keys[-1])
+            loaded = [k for k in keys if spec_path(self.n, self.d, self.fc, self.sc, k) == lastp]
+        missing = any(not self.has_opt[k] for k in loaded)
+        exp = "KeyError" if missing else [(k, self.spec[k], self.spec[k] * 10) for k in sel]
+        obs = ("KeyError" if isinstance(err, KeyError) else repr(err)) if err is not None else got
+        self.res.case(("colq", self.n, self.d, self.fc, len(self.log), which, a, b))
+        self.res.count("query:columns-naming-a-field-%s" % ("some-samples-lack" if missing else "all-samples-have"))
+        if obs != exp:
+            self.res.violation("missing-column-not-reported", "a read naming a field that a sample of the range lacks "
+                               "neither raised KeyError nor returned every sample",
+                               self.replay_input("colquery"), exp, obs)
+
     def rf_query(self):
         rng = self.res.rng
         self.log.append(["rfquery"])
@@ -241,8 +324,20 @@ class Scenario:
             pass
 
 
+def raise_stack_limit():
+    """the extracted model recurses over candidate-file lists (one element per cadence slot, 86400 per
+    day at 1 s cadence); child processes inherit the limit"""
+    import resource
+    soft, hard = resource.getrlimit(resource.RLIMIT_STACK)
+    try:
+        resource.setrlimit(resource.RLIMIT_STACK, (hard, hard))
+    except (ValueError, OSError):
+        pass
+
+
 def run(res):
     common.use_impl()
+    raise_stack_limit()
     rng = res.rng
     quick = res.tier == "quick"
     res.rule = ("interleaved histories on a tree ch0 (RF, int16) + ch0/metadata over rates x file cadences x subdir "
@@ -258,13 +353,17 @@ def run(res):
     for si in range(nscen):
         n, d = RATES[si % len(RATES)]
         fc = FCS[(si // len(RATES) + si) % len(FCS)]
-        sc = SCS[si % 2]
-        sc_ = Scenario(res, n, d, fc, sc)
+        sc = SCS[si % 2] if fc > 1 else 3600
+        epoch = si % 5 == 4
+        if epoch:                                    # a file must hold indices 0..>100
+            n, d, fc = [(200, 3, 60), (100, 1, 3), (1, 1, 3600), (200, 3, 3600)][(si // 5) % 4]
+            res.count("scenarios:epoch (decimal length changes inside a file)")
+        sc_ = Scenario(res, n, d, fc, sc, epoch)
         # a reader created before anything was written
         sc_.new_reader()
         sc_.query(0, 0, 0, 0)
         for _ in range(nops):
-            op = rng.choice(["mdw", "mdw", "mdw", "rfw", "rfw", "q", "q", "q", "nr", "rfq", "ls"])
+            op = rng.choice(["mdw", "mdw", "mdw", "rfw", "rfw", "q", "q", "q", "nr", "rfq", "ls", "cq", "cq"])
             if op == "mdw":
                 sc_.md_write()
             elif op == "rfw":
@@ -275,13 +374,19 @@ def run(res):
                 sc_.new_reader(via_rf=rng.random() < 0.4)
             elif op == "rfq":
                 sc_.rf_query()
+            elif op == "cq":
+                sc_.column_query()
+                sc_.random_query()                   # what the next reader call sees afterwards
             else:
                 sc_.listing()
         sc_.rf_query()
         sc_.listing()
+        sc_.column_query()
+        sc_.random_query()
+        sc_.check_valid_tree()
         sc_.finish()
         # ---- model
-        nmo = sum(1 for x in sc_.log if x[0] in ("mdwrite", "newreader", "query"))
+        nmo = sum(1 for x in sc_.log if x[0] in ("mdwrite", "newreader", "query"))   # colquery: oracle only
         out = common.run_model("metadata", [[20, n, d, fc, sc, nmo] + sc_.mops])[0]
         total += 1
         if out == sc_.iobs:
@@ -305,8 +410,12 @@ def run(res):
     res.assumptions += [
         "call granularity: a reader call never overlaps a write call (one process, sequential); OS-level interleaving "
         "inside a call is C09's concern",
-        "valid tree: every metadata file can be opened (the deleting branch of _add_metadata is proved unreachable "
-        "from such trees in the model, and any deletion would be seen by the tree hash)",
+        "valid tree: every metadata file can be opened (checked with h5py on the real tree at the end of every "
+        "scenario). Before every read-only call all metadata files are made older than the file cadence (os.utime) and "
+        "are writable, so the deleting branch of _add_metadata is guarded only by that hypothesis -- as in the model, "
+        "where it is proved unreachable -- and any deletion is seen by the tree hash",
+        "reads with columns= naming a field that some sample lacks (KeyError in the current code) are compared with "
+        "the oracle only; the model has no field names",
         "RF reads, listings and reader construction are not modelled: they are exercised with the tree hashed "
         "before and after each call",
         "a reader created before the first write keeps get_fields() == None afterwards (not part of the statement)",
@@ -330,7 +439,8 @@ def replay(res, rp):
         if op[0] == "mdwrite":
             ks, tags = op[1], op[2]
             try:
-                w.write(ks, [{"tag": t, "x": float(t) / 2} for t in tags])
+                w.write(ks, [dict({"tag": t, "x": float(t) / 2}, **({"opt": t * 10} if len(op) > 4 and op[4] else {}))
+                             for t in tags])
             except IOError:
                 pass
             for kk, t in zip(ks, tags):
@@ -339,6 +449,32 @@ def replay(res, rp):
                 spec[kk] = t
         elif op[0] == "newreader":
             readers.append(digital_rf.DigitalMetadataReader(md))
+        elif op[0] == "colquery" and op[1] < len(readers):
+            import time
+            _, r, which, a, b = op
+            rd = readers[r]
+            old_t = time.time() - 2 * i["fc"] - 100
+            for root, _d, files in os.walk(md):
+                for f in files:
+                    os.utime(os.path.join(root, f), (old_t, old_t))
+            h0 = tree_hash(top)
+            try:
+                if which == "read-list":
+                    rd.read(a, b, columns=["tag", "opt"])
+                elif which == "read-str":
+                    rd.read(a, b, columns="opt")
+                elif which == "flatdict":
+                    rd.read_flatdict(a, b, columns=["tag", "opt"])
+                else:
+                    rd.read_latest(columns="opt")
+                outcome = "returned"
+            except KeyError:
+                outcome = "KeyError"
+            h1 = tree_hash(top)
+            if h0 != h1:
+                print(" reader %d %s(%d, %d) naming field 'opt' -> %s; tree changed: %s" %
+                      (r, which, a, b, outcome, sorted(k for k in set(h0) | set(h1) if h0.get(k) != h1.get(k))))
+                bad = True
         elif op[0] == "query" and op[1] < len(readers):
             _, r, kind, a, b = op
             rd = readers[r]
